@@ -5,6 +5,8 @@ import (
 	"fmt"
 	"math/big"
 	"sort"
+	"strconv"
+	"strings"
 	"sync"
 )
 
@@ -656,6 +658,183 @@ func EthEvents(t int, sc *Scenario, tr *Transcript) []EthEvent {
 			}
 		}
 		evs = append(evs, e)
+	}
+	return evs
+}
+
+// ---------------------------------------------------------------------------------
+// Governance_Trace events (C14)
+
+type GovTx struct {
+	K   string `json:"k"`
+	ID  string `json:"id"`
+	By  string `json:"by"`
+	Amt int64  `json:"amt"`
+	Op  int64  `json:"op"`
+	V   string `json:"v"`
+	To  string `json:"to"`
+}
+
+type GovProp struct {
+	Store    string `json:"store"`
+	Status   int64  `json:"status"`
+	Outcome  int64  `json:"outcome"`
+	Type     int64  `json:"type"`
+	Proposer string `json:"proposer"`
+	FundDL   int64  `json:"fundDL"`
+	VoteDL   int64  `json:"voteDL"`
+	Goal     int64  `json:"goal"`
+	PassPct  int64  `json:"passPct"`
+	Group    string `json:"group"` // option record a configuration proposal updates ("" when none)
+}
+
+// option record named by the first segment of a configuration update key
+var govGroups = map[string]string{"feeOption": "feeopt", "onsOptions": "onsopt", "stakingOptions": "stakingopt", "propOptions": "proposal",
+	"evidenceOptions": "evidenceopt", "rewardOptions": "reward", "networkDelegOptions": "networkdelegopt", "ethOptions": "ethcdopt", "btcOptions": "btccdopt"}
+
+func govGroup(update string) string {
+	if i := strings.Index(update, "."); i > 0 {
+		if g, ok := govGroups[update[:i]]; ok {
+			return g
+		}
+		return "?" + update[:i]
+	}
+	return ""
+}
+
+// optValue walks an option record along a configuration key ("a.b.c", first segment dropped),
+// matching field names case-insensitively; ok is false when the path does not resolve.
+func optValue(raw json.RawMessage, path []string) (string, bool) {
+	var cur interface{}
+	if json.Unmarshal(raw, &cur) != nil {
+		return "", false
+	}
+	for _, seg := range path {
+		m, ok := cur.(map[string]interface{})
+		if !ok {
+			return "", false
+		}
+		found := false
+		for k, v := range m {
+			if strings.EqualFold(k, seg) {
+				cur, found = v, true
+				break
+			}
+		}
+		if !found {
+			return "", false
+		}
+	}
+	switch v := cur.(type) {
+	case float64:
+		return strconv.FormatFloat(v, 'f', -1, 64), true
+	case string:
+		return v, true
+	}
+	return "", false
+}
+
+type GovVote struct {
+	Op    int64 `json:"op"`
+	Power int64 `json:"power"`
+}
+
+type GovEvent struct {
+	T           int                           `json:"t"`
+	Ev          string                        `json:"ev"`
+	H           int64                         `json:"h"`
+	Pre         map[string]GovProp            `json:"pre"`
+	Post        map[string]GovProp            `json:"post"`
+	VotesPre    map[string]map[string]GovVote `json:"votesPre"`
+	VotesPost   map[string]map[string]GovVote `json:"votesPost"`
+	FundsPre    map[string]map[string]int64   `json:"fundsPre"`
+	FundsPost   map[string]map[string]int64   `json:"fundsPost"`
+	FundTPost   map[string]int64              `json:"fundTPost"`
+	Txs         []GovTx                       `json:"txs"`
+	OptsChanged []string                      `json:"optsChanged"`
+	// configuration proposals finalised as passed in this block whose option does not hold the proposed value afterwards
+	NotApplied []string `json:"notApplied"`
+}
+
+func govProps(s *AbsState) map[string]GovProp {
+	out := map[string]GovProp{}
+	for n, p := range s.Props {
+		out[n] = GovProp{Store: p.Store, Status: p.Status, Outcome: p.Outcome, Type: p.Type, Proposer: p.Proposer, FundDL: p.FundDL, VoteDL: p.VoteDL, Goal: p.Goal, PassPct: p.PassPct, Group: govGroup(p.Update)}
+	}
+	return out
+}
+
+func govVotes(s *AbsState) map[string]map[string]GovVote {
+	out := map[string]map[string]GovVote{}
+	for p, m := range s.PropVotes {
+		out[p] = map[string]GovVote{}
+		for v, r := range m {
+			out[p][v] = GovVote{Op: r.Opinion, Power: r.Power}
+		}
+	}
+	return out
+}
+
+func GovEvents(t int, sc *Scenario, tr *Transcript) []GovEvent {
+	if tr.InitState == nil {
+		return nil
+	}
+	var evs []GovEvent
+	prev := tr.InitState
+	for _, b := range tr.Blocks {
+		if b.State == nil {
+			break
+		}
+		e := GovEvent{T: t, Ev: "Block", H: b.H, Pre: govProps(prev), Post: govProps(b.State), VotesPre: govVotes(prev), VotesPost: govVotes(b.State),
+			FundsPre: prev.PropFunds, FundsPost: b.State.PropFunds, FundTPost: b.State.PropFundT, Txs: []GovTx{}, OptsChanged: []string{}}
+		for name, raw := range b.State.Opts {
+			if string(prev.Opts[name]) != string(raw) {
+				e.OptsChanged = append(e.OptsChanged, name)
+			}
+		}
+		sort.Strings(e.OptsChanged)
+		e.NotApplied = []string{}
+		byKey := map[string][]string{}
+		for n, p := range b.State.Props {
+			if q, was := prev.Props[n]; p.Store == "Finalized" && p.Outcome == 49 && p.Type == 32 && !(was && q.Store == "Finalized") {
+				byKey[strings.SplitN(p.Update, ":", 2)[0]] = append(byKey[strings.SplitN(p.Update, ":", 2)[0]], n)
+			}
+		}
+		for key, ps := range byKey {
+			kv := strings.SplitN(b.State.Props[ps[0]].Update, ":", 2)
+			segs := strings.Split(key, ".")
+			if len(ps) != 1 || len(kv) != 2 || len(segs) < 2 {
+				continue // two proposals on one key in one block: the later one wins, not judged
+			}
+			if got, ok := optValue(b.State.Opts[govGroup(key)], segs[1:]); ok && got != kv[1] {
+				e.NotApplied = append(e.NotApplied, ps[0])
+			}
+		}
+		sort.Strings(e.NotApplied)
+		for _, tx := range b.Txs {
+			if !accepted(tx) {
+				continue
+			}
+			a, _ := argInt(tx.Req, "amt")
+			switch tx.Req.Kind {
+			case "PROP_CREATE":
+				e.Txs = append(e.Txs, GovTx{K: "CREATE", ID: tx.Req.S("id"), By: tx.Req.S("by"), Amt: a})
+			case "PROP_FUND":
+				e.Txs = append(e.Txs, GovTx{K: "FUND", ID: tx.Req.S("id"), By: tx.Req.S("by"), Amt: a})
+			case "PROP_VOTE":
+				e.Txs = append(e.Txs, GovTx{K: "VOTE", ID: tx.Req.S("id"), By: tx.Req.S("by"), V: tx.Req.S("v"), Op: tx.Req.I("op")})
+			case "PROP_CANCEL":
+				e.Txs = append(e.Txs, GovTx{K: "CANCEL", ID: tx.Req.S("id"), By: tx.Req.S("by")})
+			case "PROP_WITHDRAW":
+				e.Txs = append(e.Txs, GovTx{K: "WITHDRAW", ID: tx.Req.S("id"), By: tx.Req.S("by"), Amt: a, To: tx.Req.S("to")})
+			case "PROP_EXPIRE":
+				e.Txs = append(e.Txs, GovTx{K: "EXPIRE", ID: tx.Req.S("id"), By: tx.Req.S("by")})
+			case "PROP_FINALIZE":
+				e.Txs = append(e.Txs, GovTx{K: "FINALIZE", ID: tx.Req.S("id"), By: tx.Req.S("by")})
+			}
+		}
+		evs = append(evs, e)
+		prev = b.State
 	}
 	return evs
 }
